@@ -80,6 +80,57 @@ SHUFFLES = [['g1f3', 'g8f6', 'f3g1'], ['b1c3', 'b8c6', 'c3b1'], ['g1f3', 'g8f6',
             ['e2e4', 'e7e5', 'g1f3', 'b8c6', 'f3g1', 'c6b8', 'g1f3']]
 
 
+def promo_capture_positions(rng, n):
+    """sparse random positions with a pawn one step from promotion and an enemy piece it can capture on the last
+    rank (captures, recaptures and promotions meet in the quiescence search); legality is checked by the caller"""
+    out = []
+    for _ in range(n * 3):
+        b = {}
+        white = rng.random() < 0.5                   # the side that owns the advanced pawn
+        f = rng.randrange(8)
+        pr, lr = (6, 7) if white else (1, 0)         # pawn rank, last rank (0-based)
+        b[(f, pr)] = 'P' if white else 'p'
+        cf = f + rng.choice([-1, 1])
+        if not 0 <= cf < 8:
+            cf = f + 1 if f == 0 else f - 1
+        b[(cf, lr)] = rng.choice('nbrq') if white else rng.choice('NBRQ')
+        if rng.random() < 0.5:
+            b[(f, lr)] = rng.choice('nbr') if white else rng.choice('NBR')      # the push is blocked
+        for k in 'Kk':
+            for _try in range(50):
+                sq = (rng.randrange(8), rng.randrange(8))
+                if sq not in b and all(max(abs(sq[0] - q[0]), abs(sq[1] - q[1])) > 1 for q, v in b.items() if v in 'Kk'):
+                    b[sq] = k
+                    break
+        for _x in range(rng.randint(1, 5)):
+            sq = (rng.randrange(8), rng.randrange(1, 7))
+            if sq not in b:
+                b[sq] = rng.choice('PpNnBbRrQqPp')
+        if sum(1 for v in b.values() if v == 'K') != 1 or sum(1 for v in b.values() if v == 'k') != 1:
+            continue
+        rows = []
+        for r in range(7, -1, -1):
+            row, e = '', 0
+            for c in range(8):
+                if (c, r) in b:
+                    row += (str(e) if e else '') + b[(c, r)]
+                    e = 0
+                else:
+                    e += 1
+            rows.append(row + (str(e) if e else ''))
+        out.append('%s %s - - 0 1' % ('/'.join(rows), rng.choice('wb')))
+    return out
+
+
+def legal_only(fens):
+    tmp = os.path.join(WORK, 'fens-legal-%d.txt' % os.getpid())
+    with open(tmp, 'w') as fo:
+        fo.write('\n'.join(fens) + '\n')
+    p = run_harness(['has-moves', '--in', tmp])
+    os.remove(tmp)
+    return [l.strip() for l in p.stdout.split('\n') if l.strip()]
+
+
 def c11_cases(tier, seed):
     rng = random.Random(seed)
     sparse, corner, perft, bench, mates = positions()
@@ -153,6 +204,10 @@ def c11_cases(tier, seed):
             hist = []
             depth = rng.choice([1, 2])
         cases.append({'id': len(cases), 'fen': fen, 'hist': hist, 'depth': depth})
+    # a pawn that can capture onto the last rank (promotion captures inside the quiescence search), depth 1 and 2
+    pq = legal_only(promo_capture_positions(random.Random(seed + 5), 40 if tier == 'quick' else 600))
+    for i, f in enumerate(pq[:60 if tier == 'quick' else 900]):
+        cases.append({'id': len(cases), 'fen': f, 'hist': [], 'depth': 1 + i % 2, 'pq': True})
     # forced mates in two from sparse random material, depth 3: a longer (checking) mate is often visible in the same
     # iteration, so mate scores meet null windows, re-searches and cut-offs (small trees: many of them are affordable)
     pm2 = run_harness(['mate-cands', '--seed', seed + 17, '--n', 110 if tier == 'quick' else 2500, '--only', 'm2',
@@ -245,8 +300,9 @@ def run_c11(tier, seed, verdict, cov):
     cov['samples'] = samples
     # node-level contract: every child search of the real search returns a value that is sound for its window
     # (exact inside, a true bound outside) with respect to LookVal / Quiesce of that node
-    step_cases = [c for c in cases if c['depth'] <= 3 and not c.get('m2')][:90 if tier == 'quick' else 2500]
-    step_cases += [c for c in cases if c.get('m2')][:40 if tier == 'quick' else 800]
+    step_cases = [c for c in cases if c['depth'] <= 3 and not c.get('m2') and not c.get('pq')][:90 if tier == 'quick' else 2500]
+    step_cases += [c for c in cases if c.get('m2')][:30 if tier == 'quick' else 800]
+    step_cases += [c for c in cases if c.get('pq')][:30 if tier == 'quick' else 600]
     schunks = [step_cases[i::parts] for i in range(parts)]
 
     def steps(i):
